@@ -85,6 +85,20 @@ def generate(rng, idx, tier, variant):
             interrupt = {'seam': rng.randint(0, max(1, 3 * max(1, len(positions))))}
         elif r < 0.22:
             interrupt = {'line': rng.randint(1, 60 + 90 * max(1, len(positions)))}
+        if n and rng.random() < 0.3:
+            # history before the solve: every party is replaced by a reindexed version or by a copy of itself
+            if rng.random() < 0.7:
+                ops.append({'op': 'reindex', 'shift': rng.choice([-2, -1, 1, 2, 3]), 'grow': rng.choice([0, 0, 1, 2])})
+            else:
+                ops.append({'op': 'copy', 'route': rng.choice(['copy', 'deepcopy'])})
+            if ops[-1]['op'] == 'reindex':
+                # positions below refer to the span as it is when the solve runs
+                n = n + ops[-1]['grow']
+                lo, hi = lags, n - 1 - leads
+                if isinstance(start, int):
+                    start = min(start, n - 1)
+                if isinstance(end, int):
+                    end = min(end, n - 1)
         ops.append(
             {
                 'op': 'solve',
@@ -161,8 +175,28 @@ def execute(schedule, ctx):
         pass
     ctx.probe('span:' + spec['span']['type'])
 
+    spec = dict(spec, span=dict(spec['span']))
     for step, op in enumerate(schedule['ops']):
         ctx.step = step
+        if op['op'] in ('reindex', 'copy'):
+            import copy as _copy
+
+            if n == 0:
+                continue
+            if op['op'] == 'reindex':
+                spec['span']['origin'] = spec['span'].get('origin', 0) + op['shift']
+                spec['span']['n'] = n + op.get('grow', 0)
+                made = [m.reindex(spans.make_span(spec['span']), fill_value=0.5) for m in (A, B, C, R)]
+                ctx.probe('history:reindex-before-solve')
+            else:
+                made = [m.copy() if op['route'] == 'copy' else _copy.deepcopy(m) for m in (A, B, C, R)]
+                ctx.probe('history:copy-before-solve')
+            A, B, C, R = made
+            span = A.__dict__['span']
+            n = len(span)
+            ctx.log(step, op['op'])
+            ctx.outcome(op['op'], 'ok')
+            continue
         opts = op['opts']
         start_l = _label(spec, span, op['start'], op.get('sform', 0)) if n else None
         end_l = _label(spec, span, op['end'], op.get('eform', 0)) if n else None
